@@ -654,7 +654,7 @@ func init() {
 		Level: "exploration",
 		Rule: "seeded request/response sequences on one connection (bare region client or full client; queue size {1,2,100}; " +
 			"read timeout 1-2 s for the logical cases, 200 ms for the real-time ones): steps of unbatched singles, batches, a send whose response is forced to be read before " +
-			"the sender returns from Write, calls cancelled while unanswered (their responses are skipped), responses held and " +
+			"the sender returns from Write, calls cancelled while unanswered (their responses are skipped) or inside the connection's Write, one of n held requests answered, responses held and " +
 			"released together, a request sent (and left unanswered) while the deadline-clearing call of the previous response is in progress; after every step (a quiescent point) the recorded read deadline must be cleared and the " +
 			"connection open; while requests are held the armed deadline must be >= last send + timeout. Real-time cases add " +
 			"an idle period of 5 timeouts followed by a request on the same connection, and a silent server. distinct = step " +
